@@ -205,10 +205,115 @@ def _rec(ctx: Ctx, ok: bool, c: Class, kind: str):
                       construct=f"{c.name}:{kind}")
 
 
+GRAPH_MUTATORS = {"add_edge", "add_node", "add_edges_from", "add_nodes_from", "add_weighted_edges_from", "remove_edge", "remove_node", "remove_edges_from",
+                  "remove_nodes_from", "clear_edges"}
+COPIES = {"dict", "list", "set", "tuple", "frozenset", "sorted", "copy", "deepcopy", "float", "int", "str", "bool", "len", "sum", "min", "max", "abs", "round"}
+
+
+def _self_aliases(f):
+    """Local names of a method that may refer to an object owned by `self` (a live view, a stored dict, an element of a stored
+    container): bound from an expression rooted in `self` through attribute reads, subscripts, method calls on such a value
+    (networkx hands out its internal dicts), `or` / conditional expressions, iteration and unpacking. A name bound from a copying
+    builtin is fresh. `holders` are fresh local containers into which such a value was put; iterating them yields aliases again."""
+    derived, holders = set(), set()
+
+    def owned(e) -> bool:
+        if isinstance(e, ast.Name):
+            return e.id == "self" or e.id in derived
+        if isinstance(e, (ast.Attribute, ast.Subscript, ast.Starred)):
+            return owned(e.value)
+        if isinstance(e, ast.Call):
+            fn = e.func
+            if isinstance(fn, ast.Name):
+                return False  # free functions (dict(), list(), nx.f()) return fresh values
+            if isinstance(fn, ast.Attribute):
+                if fn.attr in ("copy", "deepcopy", "__copy__"):
+                    return False
+                return owned(fn.value)
+            return False
+        if isinstance(e, ast.BoolOp):
+            return any(owned(v) for v in e.values)
+        if isinstance(e, ast.IfExp):
+            return owned(e.body) or owned(e.orelse)
+        if isinstance(e, ast.NamedExpr):
+            return owned(e.value)
+        if isinstance(e, (ast.Tuple, ast.List)):
+            return any(owned(x) for x in e.elts)
+        return False
+
+    def held(e) -> bool:
+        if isinstance(e, ast.Name):
+            return e.id in holders
+        if isinstance(e, ast.Call) and isinstance(e.func, ast.Name) and e.func.id in ("zip", "enumerate", "reversed", "iter", "list", "tuple", "sorted"):
+            return any(held(a) or owned(a) for a in e.args)
+        if isinstance(e, ast.Call) and isinstance(e.func, ast.Attribute) and e.func.attr in ("items", "values", "keys", "copy"):
+            return held(e.func.value)
+        return False
+
+    changed = True
+    while changed:
+        changed = False
+        for n in ast.walk(f.node):
+            binds = []
+            if isinstance(n, ast.Assign):
+                binds = [(t, n.value) for t in n.targets]
+            elif isinstance(n, ast.AnnAssign) and n.value is not None:
+                binds = [(n.target, n.value)]
+            elif isinstance(n, (ast.For, ast.comprehension)):
+                binds = [(n.target, n.iter)]
+            elif isinstance(n, ast.NamedExpr):
+                binds = [(n.target, n.value)]
+            elif isinstance(n, ast.withitem) and n.optional_vars is not None:
+                binds = [(n.optional_vars, n.context_expr)]
+            for tgt, val in binds:
+                if owned(val) or held(val):
+                    for nm in flow.target_names(tgt):
+                        if nm != "self" and nm not in derived:
+                            derived.add(nm)
+                            changed = True
+            if isinstance(n, ast.Call) and isinstance(n.func, ast.Attribute) and isinstance(n.func.value, ast.Name) and n.func.attr in ("append", "add", "extend", "insert", "setdefault", "update"):
+                if n.func.value.id not in derived and any(owned(a) or any(owned(x) for x in ast.walk(a) if isinstance(x, ast.Name)) for a in n.args):
+                    if n.func.value.id not in holders:
+                        holders.add(n.func.value.id)
+                        changed = True
+    derived -= holders
+    return derived
+
+
 def _init_only_assignment(ctx: Ctx, c: Class):
     for name, f in c.methods.items():
         if name in ("__init__", "__new__"):
             continue
+        aliases = _self_aliases(f)
+
+        def alias_rooted(e):
+            while isinstance(e, (ast.Attribute, ast.Subscript)):
+                e = e.value
+            return isinstance(e, ast.Name) and e.id in aliases
+
+        for n in ast.walk(f.node):
+            tgt = None
+            if isinstance(n, (ast.Subscript, ast.Attribute)) and isinstance(n.ctx, (ast.Store, ast.Del)) and alias_rooted(n.value):
+                tgt = n
+            elif isinstance(n, ast.AugAssign) and isinstance(n.target, (ast.Subscript, ast.Attribute)) and alias_rooted(n.target.value):
+                tgt = n.target
+            if tgt is not None:
+                ctx.violation("D1", "IM.closure", f"{c.name}.{name} writes into {flow.dump(tgt)[:50]}, an object handed out by the road network's own structures", f, n,
+                              why="the value comes from the graph / index held by the road network object (networkx returns its internal dictionaries), which every saved state shares: "
+                                  "changing it in place, even temporarily, changes what earlier states read",
+                              construct=f"{c.name}.{name}:alias-store:{flow.dump(tgt.value)[:40]}")
+            elif isinstance(n, ast.Call) and isinstance(n.func, ast.Attribute) and n.func.attr in (MUTATING_METHODS | GRAPH_MUTATORS) and alias_rooted(n.func.value):
+                ctx.violation("D1", "IM.closure", f"{c.name}.{name} calls {flow.dump(n.func.value)[:40]}.{n.func.attr}(...) on an object handed out by the road network's own structures", f, n,
+                              why="a container held by the road network object — reachable from every saved state — is mutated after construction",
+                              construct=f"{c.name}.{name}:alias-mutating-call:{flow.dump(n.func.value)[:40]}.{n.func.attr}")
+            elif isinstance(n, ast.Call) and isinstance(n.func, ast.Attribute) and n.func.attr in GRAPH_MUTATORS and isinstance(n.func.value, (ast.Attribute, ast.Subscript)):
+                e = n.func.value
+                while isinstance(e, (ast.Attribute, ast.Subscript)):
+                    e = e.value
+                if isinstance(e, ast.Name) and e.id == "self":
+                    ctx.violation("D1", "IM.closure", f"{c.name}.{name} calls {flow.dump(n.func.value)[:40]}.{n.func.attr}(...)", f, n,
+                                  why="the graph held by the road network object — reachable from every saved state — is changed after construction",
+                                  construct=f"{c.name}.{name}:self-mutating-call:{flow.dump(n.func.value)[:40]}.{n.func.attr}")
         def rooted_in_self(e):
             while isinstance(e, (ast.Attribute, ast.Subscript)):
                 e = e.value
